@@ -10,4 +10,5 @@ def components(ctx):
 
 
 def check(ctx):
-    return vlib.standard_check(ctx, MODULES, components(ctx), assumptions=H.ASSUMPTIONS, trusted=H.TRUSTED)
+    return vlib.standard_check(ctx, MODULES, components(ctx), assumptions=H.ASSUMPTIONS, trusted=H.TRUSTED,
+                               explanation='Lean theorems cover the model of every handler for all byte streams, segmentations and limits (no abort, termination, one callback, range facts). Leak-/fd-freedom and cancellation are not expressible in the functional model: they are observed on the real code in every generated case (allocator/fd accounting, LeakSanitizer, cancel after the k-th wait).')
